@@ -204,7 +204,8 @@ class HyperVStorageKeyTable:
         self._lookup: dict[int, HyperVStorageKeyTableEntry] = {}
 
         entry_offset = len(c_hyperv.HyperVStorageKeyTable)
-        while entry_offset < size:
+        # Fewer bytes than an entry header at the end of the table can't hold another entry
+        while entry_offset + len(c_hyperv.HyperVStorageKeyTableEntryHeader) <= size:
             entry = HyperVStorageKeyTableEntry(self, entry_offset)
             if entry.size == 0:
                 break
